@@ -1,7 +1,8 @@
 """Configuration of the check for C17 (loaded by checklib/props.py; COMMON_TRUSTED / MODEL_TRUSTED are in scope)."""
 
 PROP = {'modules': ['AmVerif.Props.C17', 'AmVerif.Lemmas.Cell', 'AmVerif.Lemmas.CellStep', 'AmVerif.Lemmas.CellFail', 'AmVerif.Lemmas.CellLive'],
- 'engines': [{'name': 'cell', 'quick': 400, 'thorough': 4000}],
+ 'engines': [{'name': 'cell', 'quick': 400, 'thorough': 4000},
+             {'name': 'conc', 'tag': 'conc-racers', 'quick': 4, 'thorough': 40, 'classes': ['racers-diverge', 'presence-flipped', 'harness-panic']}],
  'rule': 'get_or_init (infallible entry point: initialiser returns or panics) and get_or_try_init (Ok / Err / panic) are distinct call kinds everywhere; case 0 enumerates every call sequence of length 3 over {get, try-ok, try-err, try-panic, infallible-ok, infallible-panic} for the three seed kinds (no destructor / '
          'recorded destructor / panicking destructor) with the observable state after each call and the ledger at drop; case 1 every pair of '
          'single-call free-running threads per kind; case 2 every (held initialiser outcome x other call) forced overlap per kind plus the malformed '
